@@ -170,9 +170,11 @@ class Spec:
         self.kind, self.build, self.desc = kind, build, desc
 
 
-def gen_skeleton(rng):
+def gen_skeleton(rng, shift=0.0):
     import navis
     f = F.gen_forest(rng, 4, 40, roots=1 if rng.random() < 0.8 else 2, lattice=False, zero_edges=False)
+    if shift:
+        f['xyz'] = [(a + shift, b, c) for a, b, c in f['xyz']]
     ids = f['ids']
     cn = F.gen_connectors(rng, f, 10)
     if cn is None:
@@ -250,8 +252,8 @@ def catalogue():
     import navis
     C = []
 
-    def add(name, kinds, call, gen=None, inplace=True, annot=(), lists=True):
-        C.append(dict(name=name, kinds=kinds, call=call, gen=gen or (lambda x, rng: {}), inplace=inplace, annot=set(annot), lists=lists))
+    def add(name, kinds, call, gen=None, inplace=True, annot=(), lists=True, list_only=False, same_ids=False):
+        C.append(dict(name=name, kinds=kinds, call=call, gen=gen or (lambda x, rng: {}), inplace=inplace, annot=set(annot), lists=lists, list_only=list_only, same_ids=same_ids))
 
     ids = lambda x: [int(v) for v in x.nodes.node_id.values]
     nonroot = lambda x: [int(v) for v in x.nodes.node_id.values[x.nodes.parent_id.values >= 0]]
@@ -336,6 +338,13 @@ def catalogue():
     add('persistence_points', 'sk', lambda x, p, i: navis.persistence_points(x), inplace=False)
     add('stitch_skeletons', 'sk', lambda x, p, i: navis.stitch_skeletons(navis.NeuronList([x, p['other']()]), method='LEAFS'),
         lambda x, rng: dict(other=gen_skeleton(np.random.default_rng(int(rng.integers(1 << 30)))).build), inplace=False, lists=False)
+    # functions whose INPUT is a list of neurons: every member is an input (ids overlapping between members on purpose)
+    for meth in ('LEAFS', 'NONE', 'ALL'):
+        add('stitch_skeletons(list,%s)' % meth, 'sk', (lambda meth: lambda x, p, i: navis.stitch_skeletons(x, method=meth))(meth), inplace=False, list_only=True, same_ids=True)
+    add('stitch_skeletons(list,master)', 'sk', lambda x, p, i: navis.stitch_skeletons(x, method='LEAFS', master='FIRST'), inplace=False, list_only=True, same_ids=True)
+    add('combine_neurons(list)', ('sk', 'me', 'dp'), lambda x, p, i: navis.combine_neurons(x), inplace=False, list_only=True, same_ids=True)
+    add('NeuronList.apply', ('sk', 'me', 'dp'), lambda x, p, i: x.apply(lambda n: n * 2 if hasattr(n, 'nodes') or True else n), inplace=False, list_only=True)
+    add('nblast(list)', 'dp', lambda x, p, i: navis.nblast(x, x, progress=False, n_cores=1), inplace=False, list_only=True)
     add('combine_neurons', ('sk', 'me', 'dp'), lambda x, p, i: navis.combine_neurons(x, x.copy()), inplace=False, lists=False)
     add('properties', 'sk', lambda x, p, i: (x.graph, x.segments, x.small_segments, x.cable_length, x.bbox, x.leafs, x.branch_points, x.root, x.simple, x.summary(), x.n_trees, x.subtrees, x.geodesic_matrix), inplace=False)
     add('properties', ('me', 'dp', 'vx'), lambda x, p, i: (x.bbox, x.summary(), x.volume if hasattr(x, 'volume') else None), inplace=False)
@@ -520,6 +529,15 @@ def run(ctx):
     for entry in C:
         kinds = (entry['kinds'],) if isinstance(entry['kinds'], str) else entry['kinds']
         for kind in kinds:
+            if entry['list_only']:
+                for rep in range(reps):
+                    if entry['same_ids'] and kind == 'sk':
+                        seed = int(rng.integers(1 << 30))       # the same forest (same node ids) twice or three times, moved apart
+                        specs = [gen_skeleton(np.random.default_rng(seed), shift=150.0 * j) for j in range(int(rng.integers(2, 4)))]
+                    else:
+                        specs = [GENS[kind](rng) for _ in range(int(rng.integers(2, 4)))]
+                    run_case(ctx, navis, entry, specs, rng, as_list=True)
+                continue
             for rep in range(reps):
                 spec = GENS[kind](rng)
                 run_case(ctx, navis, entry, [spec], rng, as_list=False)
